@@ -302,11 +302,19 @@ _tg, _te = _thr.make(T_CALLS, ['geodepy/survey.py'], 'survey:threads',
                      quick=['fvc_a', 'fvc_b_co2', 'group_m1', 'group_m2', 'va_conv', 'inst_ht'], triple=('fvc_a', 'fvc_b_co2', 'phase'))
 
 
+from gpmc import callforms as _cf
+
+
+from gpmc import interp as _ip
+
+
 SUBCHECKS = [
     Sub('plane', gen_plane, ev_plane, chunk=2, floor=200, guard=True, envs=3),
     Sub('vaconv', gen_va, ev_va, chunk=4, floor=30, guard=True, envs=2),
     Sub('atmos', gen_atm, ev_atm, chunk=1, floor=100, guard=True, envs=2),
     Sub('threads', _tg, _te, chunk=1, floor=3, poison=False, fresh=True, timeout=3600),
+    Sub('callforms', *_cf.make('C19', 'survey'), chunk=1, floor=1, guard=True),
+    Sub('interpreter', *_ip.make('C19', 'survey'), chunk=1, floor=5, poison=False),
 ]
 
 
